@@ -98,6 +98,14 @@ fn message_session<T: SwiftMessageBody + serde::de::DeserializeOwned>(rec: &mut 
         let mut captured: Option<ParseError> = None;
         let ok = rec.call("parse_auto", || match SwiftParser::parse_auto(text) { Ok(m) => Ok(m), Err(e) => { captured = Some(e); Err(String::new()) } });
         if ok.is_none() { if let Some(e) = &captured { render_all(rec, e, text); } }
+        if let Some(p) = &ok {
+            rec.call("wrapper_validate", || Ok::<_, String>(p.validate().errors.len()));
+            let j = rec.call("wrapper_to_json", || serde_json::to_value(p).map_err(|e| e.to_string()));
+            if let Some(j) = j {
+                rec.call("from_json", || serde_json::from_value::<swift_mt_message::ParsedSwiftMessage>(j.clone()).map(|_| ()).map_err(|e| e.to_string()));
+            }
+            rec.call("wrapper_accessors", || Ok::<_, String>((p.message_type().len(), p.as_mt103().is_some(), p.as_mt202().is_some(), p.as_mt940().is_some(), p.as_mt199().is_some())));
+        }
     }
     rec.call("parse_with_errors", || SwiftParser::new().parse_with_errors::<T>(text).map(|_| ()).map_err(|e| e.to_string()));
     rec.call("plugin_parse", || { let r = run_plugin("parse_mt", json!({"mt": text}), json!({"source": "mt", "target": "out"})); if r.ok { Ok(()) } else { Err(r.err) } });
